@@ -268,6 +268,33 @@ func c03(c *Ctx) {
 		r.Check(okAll && n >= 1, "C03.K3", tt.Name(), "the zero time is restored only for the writer's IsZero marker", c.P.Pos(tt.Node().Pos()), "return time.Time{} under t == nil || t.IsZero",
 			"the timestamp reader maps some stored payload values (e.g. UnixNano == 0) to the zero time although the writer marked them as set: such a time differs after save + load")
 	}
+	// K1c: identifiers are copied whole: every robust.Id / pb.RobustId literal in the snapshot writer and reader sets Id and Reply
+	for _, fi := range []*load.FuncInfo{marshal, unmarshal} {
+		info := fi.Info()
+		n := 0
+		ast.Inspect(fi.Body(), func(nd ast.Node) bool {
+			cl, ok := nd.(*ast.CompositeLit)
+			if !ok {
+				return true
+			}
+			tv, ok := info.Types[cl]
+			if !ok {
+				return true
+			}
+			nm := astx.NamedOf(tv.Type)
+			if nm == nil || !(nm.Obj().Name() == "Id" && nm.Obj().Pkg().Path() == pathRobust || nm.Obj().Name() == "RobustId" && nm.Obj().Pkg().Path() == pathProto) {
+				return true
+			}
+			if len(cl.Elts) == 0 {
+				return true
+			}
+			n++
+			r.Check(litField(cl, "Id") != nil && litField(cl, "Reply") != nil, "C03.K1", fi.Name(), "identifier literal "+astx.Str(cl.Type)+" carries Id and Reply", c.P.Pos(cl.Pos()), "both components set",
+				"an identifier is copied without its Reply (or Id) component: services pseudo-clients, which differ only in Reply, collapse onto one key after save + load")
+			return true
+		})
+		r.Check(n >= 1, "C03.K1", fi.Name(), "identifier literals found", c.P.Pos(fi.Node().Pos()), itoa(n), "no robust.Id / pb.RobustId literal in the snapshot code (vacuity guard)")
+	}
 	// K3b inverse converter pairs
 	type conv struct{ w, r string }
 	table := []conv{
